@@ -13,6 +13,10 @@ SCRIPTS = {
     'lemma.C07.liveness_visit_node_refines_abstract': ('bounded/rt_liveness.py', ['0', 'quick']),
 }
 SCRIPTS['malt.pyct.naming.Namer.new_symbol'] = ('bounded/rt_namer.py', ['0', 'quick'])
+for _f in ('malt.core.ag_ctx.ControlStatusCtx.__enter__', 'malt.core.ag_ctx.ControlStatusCtx.__exit__', 'malt.core.ag_ctx.control_status_ctx',
+           'malt.core.ag_ctx._control_ctx', 'malt.operators.function_wrappers.FunctionScope.__enter__',
+           'malt.operators.function_wrappers.FunctionScope.__exit__'):
+  SCRIPTS[_f] = ('bounded/rt_ctx.py', ['0', 'quick'])
 for _f in ('_get_block_vars', '_get_block_basic_vars', '_get_block_composite_vars'):
   SCRIPTS['malt.converters.control_flow.ControlFlowTransformer.' + _f] = ('bounded/rt_blockvars.py', ['0', 'quick'])
 for _m in ('__init__', 'as_tuple', '__eq__', '__hash__', 'uses', 'call_options'):
